@@ -191,6 +191,10 @@ def batch_files(max_n, lo, hi, seed):
                 names[pos] = w
                 if run([shape, [(1, 1), (0, 1), (1, 2)], names, [False, True, False, False, False], 2]):
                     return res
+        for names in rt.confusable_cases(5, ok=lambda w: xml_ok(w) and '\t' not in w):
+            for code in (1, 2):
+                if run([shape, [(1, 1), (0, 1), (1, 2)], names, [False, True, False, False, False], code]):
+                    return res
     return res
 
 
